@@ -2,7 +2,7 @@
    (same tests, same order of writes).  The error monad does NOT roll back: an error keeps the
    state reached so far (C12 is about whether the code validates before it writes).
    Handles are what Python entity objects are: an address, the nix parent, the kind. *)
-From NixV Require Import Base.Prelude H5.Store.
+From NixV Require Import Base.Prelude H5.Store Gen.Touch.
 Open Scope N_scope.
 
 Inductive ekind := KFile | KBlock | KGroup | KDataArray | KTag | KMultiTag | KFeature
@@ -175,6 +175,19 @@ Definition touch_created (a : addr) (now : Z) : M unit :=
 Definition auto_touch (a : addr) (now : Z) : M unit :=
   s <- get_st ;; if auto s then touch_updated a now else ret tt.
 
+(* the guarded update of a setter, present exactly when the translated table (Gen/Touch.v, from
+   the current source) lists (class, setter) *)
+Definition c_Entity : str := [69;110;116;105;116;121].
+Definition c_DataArray : str := [68;97;116;97;65;114;114;97;121].
+Definition c_Section : str := [83;101;99;116;105;111;110].
+Definition c_MultiTag : str := [77;117;108;116;105;84;97;103].
+Definition c_Feature : str := [70;101;97;116;117;114;101].
+Definition c_Tag : str := [84;97;103].
+Definition touches (cls name : str) : bool :=
+  existsb (fun p => streq (fst p) cls && streq (snd p) name) auto_touch_table.
+Definition auto_touch_for (cls name : str) (a : addr) (now : Z) : M unit :=
+  if touches cls name then auto_touch a now else ret tt.
+
 (* ---- util.check_entity_name_and_type *)
 Definition tok_empty (t : tok) : bool := match t with TS [] => true | _ => false end.
 Definition tok_has_slash (t : tok) : bool :=
@@ -274,7 +287,7 @@ Definition api_create (ph : N) (c : ckind) (name type : tok) (payload : list Z) 
       r <- entity_create_new pa cg name type now ;;
       (match c with
        | CDataArrays => write_payload (fst r) s_data payload       (* create_dataset + write_direct *)
-       | CTags => write_payload (fst r) s_position payload ;;; auto_touch (fst r) now
+       | CTags => write_payload (fst r) s_position payload ;;; auto_touch_for c_Tag s_position (fst r) now
        | _ => ret tt
        end) ;;;
       new_handle (mkH (fst r) (ckind_item c) pa 0%nat)
@@ -322,7 +335,7 @@ Definition api_create_mtag (ph : N) (name type : tok) (posh : N) (now : Z) : M N
   guard (negb dup) EDup ;;;
   r <- entity_create_new (ha p) s_multi_tags name type now ;;
   wr (fun s => add_link s (fst r) (TS s_positions) (ha pos)) ;;;
-  auto_touch (fst r) now ;;;
+  auto_touch_for c_MultiTag s_positions (fst r) now ;;;
   new_handle (mkH (fst r) KMultiTag (ha p) 0%nat).
 
 (* BaseTag.create_feature(data, link_type) -> Feature.create_new *)
@@ -335,13 +348,13 @@ Definition api_create_feature (th : N) (dh : N) (ltype : tok) (now : Z) : M N :=
   a <- wr_ret (fun s => ensure_group s ca id) ;;
   wr (fun s => set_attr s a k_id (Some (AText id))) ;;;
   wr (fun s => set_attr s a s_link_type (Some (AText ltype))) ;;;
-  auto_touch a now ;;;
+  auto_touch_for c_Feature s_link_type a now ;;;
   (* Feature.data setter *)
   ok <- rd (fun s => store_has_entity s (hown t) CDataArrays (ha d)) ;;
   guard ok ERuntime ;;;
   wr (fun s => set_attr s a s_target_type (Some (AText (TS s_DataArray)))) ;;;
   wr (fun s => add_link s a (TS s_data) (ha d)) ;;;
-  auto_touch a now ;;;
+  auto_touch_for c_Feature s_data a now ;;;
   touch_created a now ;;;
   touch_updated a now ;;;
   new_handle (mkH a KFeature (ha t) (hown t)).
@@ -541,18 +554,18 @@ Definition api_set_link (ph : N) (r : rkind) (xh : option N) (now : Z) : M unit 
       x <- the_handle x' ;;
       guard (ekind_eqb (hk p) KMultiTag) EOther ;;;
       wr (fun s => add_link s (ha p) (TS s_positions) (ha x)) ;;;
-      auto_touch (ha p) now
+      auto_touch_for c_MultiTag s_positions (ha p) now
   | RPositions, None => guard (ekind_eqb (hk p) KMultiTag) EOther ;;; fail EType
   | RExtents, Some x' =>
       x <- the_handle x' ;;
       guard (ekind_eqb (hk p) KMultiTag) EOther ;;;
       wr (fun s => add_link s (ha p) (TS s_extents) (ha x)) ;;;
-      auto_touch (ha p) now
+      auto_touch_for c_MultiTag s_extents (ha p) now
   | RExtents, None =>
       guard (ekind_eqb (hk p) KMultiTag) EOther ;;;
       s <- get_st ;;
       (match child (sto s) (ha p) (TS s_extents) with
-       | Some _ => wr (fun s0 => del_link s0 (ha p) (TS s_extents)) ;;; auto_touch (ha p) now
+       | Some _ => wr (fun s0 => del_link s0 (ha p) (TS s_extents)) ;;; auto_touch_for c_MultiTag s_extents (ha p) now
        | None => fail EKey                     (* del group["extents"] on a missing link *)
        end)
   | RFeatureData, Some x' =>
@@ -564,14 +577,14 @@ Definition api_set_link (ph : N) (r : rkind) (xh : option N) (now : Z) : M unit 
       guard ok ERuntime ;;;
       wr (fun s => set_attr s (ha p) s_target_type (Some (AText (TS s_DataArray)))) ;;;
       wr (fun s => add_link s (ha p) (TS s_data) (ha x)) ;;;
-      auto_touch (ha p) now
+      auto_touch_for c_Feature s_data (ha p) now
   | RFeatureData, None => fail EType
   | RSectionLink, Some x' =>
       x <- the_handle x' ;;
       guard (ekind_eqb (hk p) KSection) EOther ;;;
       guard (ekind_eqb (hk x) KSection) EOther ;;;
       wr (fun s => add_link s (ha p) (TS s_link) (ha x)) ;;;
-      auto_touch (ha p) now
+      auto_touch_for c_Section s_link (ha p) now
   | RSectionLink, None => fail EOther
   end.
 
@@ -585,19 +598,25 @@ Definition api_set_attr (ph : N) (a : akind) (v : option tok) (now : Z) : M unit
       guard is_entity EOther ;;;
       (match v with
        | None => fail EOther                              (* AttributeError *)
-       | Some t => wr (fun s => set_attr s (ha p) k_type (Some (AText t))) ;;; auto_touch (ha p) now
+       | Some t => wr (fun s => set_attr s (ha p) k_type (Some (AText t))) ;;; auto_touch_for c_Entity k_type (ha p) now
        end)
   | ADefinition =>
       guard is_entity EOther ;;;
-      wr (fun s => set_attr s (ha p) k_definition (option_map AText v)) ;;; auto_touch (ha p) now
+      wr (fun s => set_attr s (ha p) k_definition (option_map AText v)) ;;; auto_touch_for c_Entity k_definition (ha p) now
   | ALabel | AUnit =>
       guard (ekind_eqb k KDataArray) EOther ;;;
-      wr (fun s => set_attr s (ha p) (aname a) (option_map AText v)) ;;; auto_touch (ha p) now
+      wr (fun s => set_attr s (ha p) (aname a) (option_map AText v)) ;;; auto_touch_for c_DataArray (aname a) (ha p) now
   | ARepository | AReference =>
       guard (ekind_eqb k KSection) EOther ;;;
-      wr (fun s => set_attr s (ha p) (aname a) (option_map AText v)) ;;; auto_touch (ha p) now
+      wr (fun s => set_attr s (ha p) (aname a) (option_map AText v)) ;;; auto_touch_for c_Section (aname a) (ha p) now
   | ALinkType => fail EOther
   end.
+
+(* Entity.force_created_at(t) / force_updated_at(t) *)
+Definition api_force (ph : N) (created : bool) (t : Z) : M unit :=
+  p <- the_handle ph ;;
+  guard (negb (ekind_eqb (hk p) KFile || ekind_eqb (hk p) KFeature)) EOther ;;;
+  wr (fun s => set_attr s (ha p) (if created then k_created else k_updated) (Some (AInt t))).
 
 (* close + open again: the file content is what it is; all Python objects are gone *)
 Definition api_reopen (readonly : bool) : M N :=
@@ -674,6 +693,7 @@ Inductive op :=
 | ORemove (p : N) (l : lkind) (k : key)
 | OSetLink (p : N) (r : rkind) (x : option N)
 | OSetAttr (p : N) (a : akind) (v : option tok)
+| OForce (p : N) (created : bool) (t : Z)
 | OProbe (p : N) (c : ckind)
 | OProbeLink (p : N) (l : lkind)
 | OSetAuto (b : bool)
@@ -704,6 +724,7 @@ Definition exec (o : op) (now : Z) : st -> st * ores :=
   | ORemove p l k => wrapU (api_remove p l k)
   | OSetLink p r x => wrapU (api_set_link p r x now)
   | OSetAttr p a v => wrapU (api_set_attr p a v now)
+  | OForce p c t => wrapU (api_force p c t)
   | OProbe p c => wrapT (api_probe p c)
   | OProbeLink p l => wrapT (api_probe_link p l)
   | OSetAuto b => fun s => (mkSt (sto s) (hs s) b (ro s) (nid s), ROk None)
